@@ -238,7 +238,7 @@ def build_and_audit(prop):
 
 
 # which property an extractor problem belongs to (prefix of the problem text)
-GEN_OWNER = {"natives extractor": "C09", "predtable extractor": "C02"}
+GEN_OWNER = {"natives extractor": "C09", "predtable extractor": "C02", "syntaxtab extractor": "C14"}
 
 
 # ----------------------------------------------------------------------------
